@@ -187,7 +187,7 @@ def wfacts_atoms(f):
 
 def _loop_vars(ip, ev):
   node, head = ev[1], ev[2]
-  tn = {n.id for n in ast.walk(node.target) if isinstance(n, ast.Name)}
+  tn = {n.id for n in ast.walk(node.target) if isinstance(n, ast.Name)} if isinstance(node, ast.For) else set()
   out = {}
   for n in sorted(ip._assigned(node.body) - tn):
     v = head.env.get(n)
@@ -230,10 +230,17 @@ def topup(ctx, fi, ip, T, oid, d, B, S):
       continue
     if not pre.facts.entails(sp.Le(E0, B - S, evaluate=False)):
       probs.append(f'entry: pool `{name}` = {_short(E0)} is not known to be <= budget - sum(ranks)')
-    if not pre.facts.entails(sp.Ge(E0, 1, evaluate=False)):
-      probs.append(f'entry: pool `{name}` = {_short(E0)} is not known to be >= 1 (the loop must only run when budget is left)')
+    is_while = isinstance(node, ast.While)
     Ei = sp.Symbol(E.name, integer=True)
-    paths = _rerun_subst(ip, T, {E: Ei}, [sp.Ge(Ei, 1, evaluate=False)], univ)
+    if is_while:
+      # the loop test itself must guarantee budget is left whenever the body runs
+      paths = _rerun_subst(ip, T, {E: Ei}, [], univ)
+      if not pre.facts.entails(sp.Ge(E0, 0, evaluate=False)):
+        probs.append(f'entry: pool `{name}` = {_short(E0)} is not known to be >= 0')
+    else:
+      if not pre.facts.entails(sp.Ge(E0, 1, evaluate=False)):
+        probs.append(f'entry: pool `{name}` = {_short(E0)} is not known to be >= 1 (the loop must only run when budget is left)')
+      paths = _rerun_subst(ip, T, {E: Ei}, [sp.Ge(Ei, 1, evaluate=False)], univ)
     n_paths = 0
     for p, evs in paths:
       n_paths += 1
@@ -265,7 +272,10 @@ def topup(ctx, fi, ip, T, oid, d, B, S):
         probs.append(f'ranks grow by {sp.expand(dR)} while the pool is charged {sp.expand(-dE)}: the group can exceed its budget')
       if not p.facts.entails(sp.Ge(E1, 0, evaluate=False)):
         probs.append(f'the pool can become negative ({_short(E1)})')
-      if not p.broke and not p.facts.entails(sp.Ge(E1, 1, evaluate=False)):
+      if is_while:
+        if not p.facts.entails(sp.Ge(Ei, 1, evaluate=False)):
+          probs.append(f'the loop test does not guarantee that budget is left when the body runs (pool {_short(Ei)} not known >= 1)')
+      elif not p.broke and not p.facts.entails(sp.Ge(E1, 1, evaluate=False)):
         probs.append(f'the loop continues with an exhausted pool (pool\' = {_short(E1)} not known >= 1): the next layer gets a rank the budget does not cover')
     if n_paths == 0:
       probs.append('no feasible path through the loop body')
@@ -295,6 +305,15 @@ def _rerun_subst(ip, ev, subst, facts, univ):
     st.facts = fs[0]
   st.univ = list(st.univ) + list(univ)
   n0 = len(st.events)
+  if isinstance(node, ast.While):
+    # the body runs only when the loop test holds
+    out = []
+    rel = ip.cond(node.test, st)
+    for f in st.facts.assume(rel):
+      st2 = st.clone()
+      st2.facts = f
+      out.extend((p, p.events[n0:]) for p, rv in ip.block(node.body, st2))
+    return out
   return [(p, p.events[n0:]) for p, rv in ip.block(node.body, st)]
 
 
